@@ -591,5 +591,6 @@ LEVEL_TEXT = (
     "append when free); (R16.4) no function other than __init__/set_metrics stores into `_metrics` (all functions scanned); "
     "(R16.5) the constructor registers every entry through set_metrics. This decides the structure that makes batching irrelevant for every call "
     "history; it does not execute histories, so equivalence of final registries is claimed only through these necessary conditions."
+    " A query, a registration and the same query again (one interpreted sequence) answer from the final registry; 1-D and 2-D metrics of one axis set are different slots."
 )
 LEVEL_NOTE = "Trusted: CPython ast; xarray's Dataset.__getitem__/reset_coords; no reflection writes the registry. Behaviour over concrete call histories is not executed."
